@@ -21,7 +21,7 @@ SIMPLE_FAULTS = ["L_raises", "position_raises", "solver_failed", "L_nonfinite"]
 def generate(seed, tier="quick"):
     rng = G.rng_of("C01", seed)
     big = tier == "thorough" and rng.random() < 0.03
-    n_choices = [128, 256, 1000] if big else None
+    n_choices = [128, 256, 600] if big else None
     world = S.gen_world(rng, regimes=ACCEPTED, n_choices=n_choices)
     # regime fields switching in time (accepted regimes only)
     if rng.random() < 0.2:
@@ -44,7 +44,10 @@ def generate(seed, tier="quick"):
         restart_share=0.08 if rng.random() < 0.4 else 0.0,
     )
     if big:
-        ops = ops[:6]
+        # hundreds of grains cost ~1 ms per right-hand-side evaluation: a short history of short
+        # intervals keeps such a run well inside the per-run watchdog
+        ops = [dict(o, t1=o["t0"] + min(o["t1"] - o["t0"], 0.25)) if o["op"] == "update" else o
+               for o in ops[:4]]
     # a share of bulk updates: replace an op by an update_all on minerals sharing an env
     if len(world["minerals"]) > 1 and rng.random() < 0.3:
         ops = _with_bulk(rng, world, ops)
@@ -229,6 +232,7 @@ ASSUMPTIONS = [
     "scipy LSODA trusted as a black box",
     "updates that raise without an injected fault are counted as rejected (statement quantifies over accepted updates)",
 ]
+RUN_TIMEOUT_S = 600
 PROBES = ["restarts", "overlap_ops", "bulk_updates", "bulk_updates_failed_part_way", "init_checked", "long_history(>=50 updates)",
           "zero_volume_grain_present", "fault_fired.L_raises", "fault_fired.solver_failed"]
 
